@@ -105,6 +105,9 @@ func (in *Interp) reduceModP(v *Term) *Term {
 	if top := st.Extract(v, 255, 251); top.IsConst() && top.c == 0 {
 		return v
 	}
+	if st.canon[v.id] {
+		return v
+	}
 	r := st.Var(fmt.Sprintf("$modP_r_%d", v.id), 256)
 	q := st.Var(fmt.Sprintf("$modP_q_%d", v.id), 8)
 	if _, ok := st.axioms[r.id]; !ok {
@@ -113,6 +116,7 @@ func (in *Interp) reduceModP(v *Term) *Term {
 		ax := st.BAnd(st.Eq(st.ZExt(v, w), prod),
 			st.BAnd(st.Cmp(OpULt, r, st.ConstBig(256, feltP)), st.Cmp(OpULt, q, st.Const(8, 32))))
 		st.axioms[r.id] = ax
+		st.canon[r.id] = true
 	}
 	return r
 }
@@ -135,6 +139,7 @@ func (in *Interp) hashApp(name string, args ...*Term) *Term {
 	if _, ok := in.st.axioms[r.id]; !ok {
 		// range axiom for this ground application (asserted by the solver layer wherever r is used)
 		in.st.axioms[r.id] = in.st.Cmp(OpULt, r, in.st.ConstBig(256, feltP))
+		in.st.canon[r.id] = true
 	}
 	key := fmt.Sprintf("hashrange:%d", r.id)
 	if _, ok := in.extra[key]; !ok {
@@ -256,7 +261,7 @@ func init() {
 			if x.IsConst() && y.IsConst() {
 				return storeZ(in, a, in.st.ConstBig(256, f(x.Big(), y.Big())))
 			}
-			if comm && x.id > y.id {
+			if comm && before(y, x) {
 				x, y = y, x
 			}
 			return storeZ(in, a, in.hashApp(name, x, y))
